@@ -68,8 +68,8 @@ def check_merge(r, lib, only_order=False):
     if len(ms) != 1:
         return
     from .common import look_through_private
-    from .. import desugar
-    b = desugar.desugar(lib, look_through_private(lib, ms[0]))
+    from .common import normal_form
+    b = normal_form(lib, ms[0])
     fn = b.name
     # result local
     res = None
@@ -199,6 +199,12 @@ def iteration_outcomes(b, l, inner, res):
         for st in mir.subterms(t):
             if known and st[0] == "local" and ("v", st[1]) in known:
                 roles |= set(known[("v", st[1])][1])
+            # scanned[i] with i = the index position() found (the counter of the desugared position loop): the matched item
+            if st[0] == "call" and st[1] in ("std::ops::Index::index",) and len(st[2]) == 2:
+                ix = strip(st[2][1])
+                if ix[0] == "local" and b.locals[ix[1]].get("synthetic") and b.locals[ix[1]]["ty"].get("prim") == "usize" and \
+                        strip(st[2][0]) == inner["root"]:
+                    roles.add("inner")
             if st[0] == "local" and st[1] == outer_item:
                 roles.add("outer")
             if st[0] == "local" and st[1] == inner_item:
